@@ -9,6 +9,7 @@ package main
 import (
 	"bufio"
 	"bytes"
+	"compress/flate"
 	"compress/gzip"
 	"os"
 	"path/filepath"
@@ -25,7 +26,9 @@ import (
 	"time"
 
 	req "github.com/imroc/req/v3"
+	"github.com/andybalholm/brotli"
 	"github.com/imroc/req/v3/internal/testcert"
+	"github.com/klauspost/compress/zstd"
 	qh3 "github.com/quic-go/quic-go/http3"
 
 	"github.com/imroc/req/v3/verifharness/hk"
@@ -35,7 +38,9 @@ type e2eScript struct {
 	ct      string
 	respAE  string
 	respCE  string
-	gzip    bool // the segments are a gzip stream of the document; Content-Encoding: gzip
+	coding  string // the segments are the document compressed with this coding; Content-Encoding: <coding>
+	status  int    // 0 = 200
+	location string
 	setCL   bool // net/http origins (h2, h3): declare Content-Length
 	segs    [][]byte
 	framing string // cl | chunked | close   (raw h1 origin)
@@ -130,8 +135,11 @@ func (o *e2eOrigins) handler(w http.ResponseWriter, r *http.Request) {
 	if s.respCE != "" {
 		w.Header().Set("Content-Encoding", s.respCE)
 	}
-	if s.gzip {
-		w.Header().Set("Content-Encoding", "gzip")
+	if s.coding != "" {
+		w.Header().Set("Content-Encoding", s.coding)
+	}
+	if s.location != "" {
+		w.Header().Set("Location", s.location)
 	}
 	if s.setCL {
 		total := 0
@@ -140,7 +148,11 @@ func (o *e2eOrigins) handler(w http.ResponseWriter, r *http.Request) {
 		}
 		w.Header().Set("Content-Length", strconv.Itoa(total))
 	}
-	w.WriteHeader(200)
+	if s.status != 0 {
+		w.WriteHeader(s.status)
+	} else {
+		w.WriteHeader(200)
+	}
 	f, _ := w.(http.Flusher)
 	for _, seg := range s.segs {
 		w.Write(seg)
@@ -183,6 +195,9 @@ func (o *e2eOrigins) serveRaw(c net.Conn) {
 		total += len(seg)
 	}
 	head := "HTTP/1.1 200 OK\r\n"
+	if s.status != 0 {
+		head = fmt.Sprintf("HTTP/1.1 %d %s\r\n", s.status, http.StatusText(s.status))
+	}
 	if s.ct != "" {
 		head += "Content-Type: " + s.ct + "\r\n"
 	}
@@ -192,8 +207,11 @@ func (o *e2eOrigins) serveRaw(c net.Conn) {
 	if s.respCE != "" {
 		head += "Content-Encoding: " + s.respCE + "\r\n"
 	}
-	if s.gzip {
-		head += "Content-Encoding: gzip\r\n"
+	if s.coding != "" {
+		head += "Content-Encoding: " + s.coding + "\r\n"
+	}
+	if s.location != "" {
+		head += "Location: " + s.location + "\r\n"
 	}
 	switch s.framing {
 	case "cl":
@@ -269,8 +287,8 @@ func (b *countingBody) Read(p []byte) (int, error) {
 
 // mw: "" (no transport middleware) | pass (middleware that leaves the response alone) | wrap (middleware
 // that re-wraps resp.Body); clone: the client used is a Clone() of the configured one
-func e2eClient(stack string, set settings, mw string, clone bool) *req.Client {
-	k := fmt.Sprintf("%s|%s|%s|%v", stack[:2], set.name(), mw, clone)
+func e2eClient(stack string, set settings, mw string, clone, autoDecompress, noRedirect bool) *req.Client {
+	k := fmt.Sprintf("%s|%s|%s|%v|%v|%v", stack[:2], set.name(), mw, clone, autoDecompress, noRedirect)
 	if c, ok := e2eClients[k]; ok {
 		return c
 	}
@@ -294,6 +312,12 @@ func e2eClient(stack string, set settings, mw string, clone bool) *req.Client {
 	case "fn":
 		ans := set.FnAns
 		c.SetAutoDecodeContentTypeFunc(func(string) bool { return ans })
+	}
+	if autoDecompress {
+		c.EnableAutoDecompress()
+	}
+	if noRedirect {
+		c.SetRedirectPolicy(req.NoRedirectPolicy())
 	}
 	if mw != "" {
 		wrap := mw == "wrap"
@@ -333,7 +357,7 @@ func driveE2E(u *unitCase) (o obs) {
 	if i := strings.Index(u.Stack, "-"); i > 0 {
 		framing = u.Stack[i+1:]
 	}
-	id := theOrigins.add(&e2eScript{ct: u.Doc.CT, respAE: u.Set.RespAE, respCE: u.Set.RespCE, gzip: u.Gzip, setCL: u.SetCL, segs: u.Chunks, framing: framing, gap: time.Duration(u.GapMS) * time.Millisecond})
+	id := theOrigins.add(&e2eScript{ct: u.Doc.CT, respAE: u.Set.RespAE, respCE: u.Set.RespCE, coding: u.Coding, status: u.Status, location: u.Location, setCL: u.SetCL, segs: u.Chunks, framing: framing, gap: time.Duration(u.GapMS) * time.Millisecond})
 	done := make(chan obs, 1)
 	go func() {
 		var o obs
@@ -348,7 +372,7 @@ func driveE2E(u *unitCase) (o obs) {
 			rec = &recorder{ReadCloser: rc}
 			return rec
 		})
-		cl := e2eClient(u.Stack, u.Set, u.Middleware, u.CloneClient)
+		cl := e2eClient(u.Stack, u.Set, u.Middleware, u.CloneClient, u.AutoDecompress, u.NoRedirect)
 		url := theOrigins.url(u.Stack, id)
 		if u.HighLevel {
 			// the public API: Client.R().Get + Response.Bytes() (io.ReadAll on the decoded body)
@@ -356,6 +380,9 @@ func driveE2E(u *unitCase) (o obs) {
 			// bytes.Buffer.ReadFrom fills consecutive regions of its array, a plain writer gets io.Copy's
 			// 32 KiB buffer)
 			rq := cl.R().SetContext(ctx)
+			if u.CallerAE != "" {
+				rq.SetHeader("Accept-Encoding", u.CallerAE)
+			}
 			var buf bytes.Buffer
 			file := ""
 			switch u.HLMode {
@@ -402,6 +429,9 @@ func driveE2E(u *unitCase) (o obs) {
 			o.EndErr = "EOF"
 		} else {
 			hr, _ := http.NewRequestWithContext(ctx, "GET", url, nil)
+			if u.CallerAE != "" {
+				hr.Header.Set("Accept-Encoding", u.CallerAE)
+			}
 			res, err := cl.GetTransport().RoundTrip(hr)
 			if err != nil {
 				o.Fatal = "round trip failed: " + err.Error()
@@ -481,6 +511,94 @@ func (w *world) bigBodies() {
 	}
 }
 
+func compressWith(coding string, p []byte) []byte {
+	var b bytes.Buffer
+	switch coding {
+	case "gzip":
+		w := gzip.NewWriter(&b)
+		w.Write(p)
+		w.Close()
+	case "deflate": // the raw RFC 1951 stream, which is what the transport reads
+		w, _ := flate.NewWriter(&b, flate.DefaultCompression)
+		w.Write(p)
+		w.Close()
+	case "br":
+		w := brotli.NewWriter(&b)
+		w.Write(p)
+		w.Close()
+	case "zstd":
+		w, _ := zstd.NewWriter(&b)
+		w.Write(p)
+		w.Close()
+	}
+	return b.Bytes()
+}
+
+// statusAndCodingCells: (a) the response status and a Location header say nothing about the text: a
+// redirect that is NOT followed (Transport.RoundTrip used directly, NoRedirectPolicy) hands its page to
+// the caller like any other response; (b) protocol x content coding x AutoDecompression: whenever the
+// transport decompresses, the charset stage runs on the decompressed text - on every stack; whenever it
+// does not, the still-encoded bytes are left alone.
+func (w *world) statusAndCodingCells() {
+	rnd := w.rnd
+	names := []string{"gbk", "big5", "shift_jis", "windows-1251", "euc-kr", "iso-8859-2"}
+	stacks := []string{"h1-cl", "h1-chunked", "h2", "h3"}
+	statuses := []int{301, 302, 303, 307, 308, 300, 201, 404, 500, 200}
+	n := w.r.Scale(40, 400)
+	for i := 0; i < n; i++ {
+		cs := specByName(names[i%len(names)])
+		d, ok := makeDoc(rnd, hk.Pick(rnd, []site{siteHeader, siteHeader, siteMeta, siteConflict}), cs, hk.Pick(rnd, []int{60, 300, 1500}))
+		if !ok {
+			continue
+		}
+		st := statuses[i%len(statuses)]
+		loc := ""
+		if st/100 == 3 || st == 201 || rnd.Intn(5) == 0 {
+			loc = "/elsewhere"
+		}
+		hlm := hk.Pick(rnd, []string{"", "", "bytes", "string"})
+		u := &unitCase{Kind: "e2e", Doc: d, Set: defaultSet, Chunks: splitAt(d.Body, []int{rnd.Intn(len(d.Body) + 1)}), Pattern: []int{hk.Pick(rnd, []int{7, 512, 4096})},
+			BufMode: "zero", FailAt: -1, Stack: hk.Pick(rnd, stacks), GapMS: 3, HighLevel: hlm != "", HLMode: hlm, Status: st, Location: loc, NoRedirect: hlm != ""}
+		w.r.Count(fmt.Sprintf("e2e:status-%dxx", st/100))
+		w.eval(u, len(d.Body) <= 600)
+	}
+	m := w.r.Scale(96, 800)
+	codings := []string{"gzip", "deflate", "br", "zstd"}
+	for i := 0; i < m; i++ {
+		cs := specByName(names[i%len(names)])
+		d, ok := makeDoc(rnd, hk.Pick(rnd, []site{siteHeader, siteHeader, siteMeta}), cs, hk.Pick(rnd, []int{120, 600, 5000}))
+		if !ok {
+			continue
+		}
+		coding := codings[i%len(codings)]
+		auto := rnd.Intn(3) != 0 // two in three with EnableAutoDecompress
+		callerAE := ""
+		if rnd.Intn(3) == 0 {
+			callerAE = coding // the caller asks for the coding itself: no transparent gzip
+		}
+		decompressed := (coding == "gzip" && callerAE == "") || auto
+		z := compressWith(coding, d.Body)
+		u := &unitCase{Kind: "e2e", Set: defaultSet, Pattern: []int{hk.Pick(rnd, []int{512, 4096, 32768})}, BufMode: "zero", FailAt: -1,
+			Stack: hk.Pick(rnd, stacks), GapMS: 3, AutoDecompress: auto, CallerAE: callerAE}
+		if hlm := hk.Pick(rnd, []string{"", "bytes", "string"}); hlm != "" {
+			u.HighLevel, u.HLMode = true, hlm
+		}
+		if decompressed {
+			u.Doc, u.Coding = d, coding
+			w.r.Count("e2e:coding-decompressed-" + coding + "-" + u.Stack[:2])
+		} else {
+			// nobody decompresses: Content-Encoding stays on the response, the bytes are not text yet
+			zd := *d
+			zd.Body, zd.BodyLen, zd.Declared = z, len(z), nil
+			u.Doc = &zd
+			u.Set = settings{Sel: "default", RespCE: coding}
+			w.r.Count("e2e:coding-left-" + coding + "-" + u.Stack[:2])
+		}
+		u.Chunks = splitAt(z, []int{rnd.Intn(len(z) + 1)})
+		w.eval(u, false)
+	}
+}
+
 var e2eStacks = []string{"h1-cl", "h1-chunked", "h1-close", "h2", "h3"}
 
 func (w *world) endToEnd() {
@@ -496,6 +614,7 @@ func (w *world) endToEnd() {
 	os.MkdirAll(dlDir, 0o755)
 	defer os.RemoveAll(dlDir)
 	w.bigBodies()
+	w.statusAndCodingCells()
 	rnd := w.rnd
 	n := w.r.Scale(170, 1500)
 	sets := []settings{defaultSet, defaultSet, defaultSet, {Sel: "all"}, {Sel: "default", Disable: true}, {Sel: "list", List: []string{"html"}}, {Sel: "default", RespAE: "gzip"}, {Sel: "default", RespCE: "x-custom"}}
@@ -557,7 +676,7 @@ func (w *world) endToEnd() {
 			}
 		}
 		u := &unitCase{Kind: "e2e", Doc: d, Set: sets[i%len(sets)], Chunks: segs, Pattern: hk.Pick(rnd, sizePatterns[3:]),
-			BufMode: hk.Pick(rnd, []string{"zero", "stale-meta", "reuse"}), FailAt: -1, Stack: e2eStacks[i%len(e2eStacks)], GapMS: 6, HighLevel: i%3 == 2, HLMode: hl, Gzip: gz,
+			BufMode: hk.Pick(rnd, []string{"zero", "stale-meta", "reuse"}), FailAt: -1, Stack: e2eStacks[i%len(e2eStacks)], GapMS: 6, HighLevel: i%3 == 2, HLMode: hl, Coding: map[bool]string{true: "gzip", false: ""}[gz],
 			Middleware: hk.Pick(rnd, []string{"", "", "wrap", "pass", "wrap"}), CloneClient: rnd.Intn(3) == 0}
 		w.eval(u, len(d.Body) <= 1600)
 	}
